@@ -57,7 +57,7 @@ def encodeFrame (f : Frame) : Bytes :=
   | none => b0 :: lenBytes ++ f.payload
 
 inductive Dec (α : Type) | more | fail | ok (a : α) (rest : Bytes)
-  deriving Repr
+  deriving Repr, DecidableEq
 
 /-- `FrameDecoder.parse_extended_payload_length` (after the control-frame check) -/
 def parseLen (len7 : Nat) (r : Bytes) : Dec Nat :=
